@@ -12,7 +12,7 @@ use crate::prng::{Fnv, Rng};
 use crate::schema::{self, GenMode, MapSchema, Site, Ty, PARAM_CMDS};
 use crate::trace::{DeliverExpect, Step};
 
-pub const REQUIRED_PROBES: [&str; 14] = [
+pub const REQUIRED_PROBES: [&str; 15] = [
     "overlong_lossy_member_checked",
     "decode_ok",
     "decode_err",
@@ -25,6 +25,7 @@ pub const REQUIRED_PROBES: [&str; 14] = [
     "recovery_checked",
     "fault_free_exchange",
     "redelivered",
+    "corrupted_copy",
     "soak_rejected",
     "soak_accepted",
 ];
@@ -457,6 +458,30 @@ pub fn gen(seed: u64, run: u64, tier: &str) -> Vec<Step> {
     if !earlier.is_empty() {
         for _ in 0..3.min(earlier.len()) {
             let (b, d) = rng.pick(&earlier).clone();
+            // a corrupted copy of the same length arrives first (bytes exchanged, the same bit hit twice, one
+            // bit hit), then the retransmission of the message itself
+            if b.len() >= 2 {
+                let mut sib = b.clone();
+                let (i, j, k) = (rng.usize_below(sib.len()), rng.usize_below(sib.len()), rng.below(8) as u8);
+                let how = match rng.below(3) {
+                    0 => {
+                        sib.swap(i, j);
+                        "bytes exchanged"
+                    }
+                    1 => {
+                        sib[i] ^= 1 << k;
+                        if i != j {
+                            sib[j] ^= 1 << k;
+                        }
+                        "the same bit flipped at two offsets"
+                    }
+                    _ => {
+                        sib[i] ^= 1 << k;
+                        "one bit flipped"
+                    }
+                };
+                steps.push(deliver(sib, "corrupted_copy".into(), format!("corrupted copy ({} at {} / {}) of [{}]", how, i, j, d)));
+            }
             steps.push(deliver(b, "redelivered".into(), format!("redelivery of [{}]", d)));
         }
     }
